@@ -189,3 +189,6 @@ def run(ctx):
     # "predecessors that complete within a single step": the finish check is closed over FF/SF chains (shared with C06)
     from .C06 import r6_4
     r6_4(ctx)
+    # "every non-automatic unfinished task has an eligible worker" is C04's notion of eligible: the allocator must test exactly that
+    from .C04 import r4_1
+    r4_1(ctx)
